@@ -77,6 +77,8 @@ def rc(addr):
 
 def write(spec, path):
     wb = Workbook()
+    if spec.get('iso_dates'):
+        wb.iso_dates = True      # dates stored in ISO 8601 form ("Strict Open XML"): a date-only cell is read back as datetime.date
     first = True
     charts = []
     for sh in spec['sheets']:
@@ -91,6 +93,8 @@ def write(spec, path):
             ws = wb.create_sheet(sh['title'])
         for addr, v in sh.get('cells', {}).items():
             ws[addr] = dec(v)
+        if sh.get('state'):
+            ws.sheet_state = sh['state']          # 'hidden' / 'veryHidden': still a worksheet of the workbook
         for addr in sh.get('touched', ()):
             ws[addr].value = None          # looked at, never given a value: only the sheet's size record knows about it
     # an empty chart sheet cannot be read back by openpyxl: give each one a small bar chart over the first worksheet
